@@ -296,6 +296,19 @@ func open(ctx context.Context, h *Handler, acked bool, s *xmpp.Session, start st
 	/* #nosec */
 	defer resp.Close()
 
+	// The stream only exists if the peer accepted it: an error reply is the
+	// result of Open.
+	tok, err := resp.Token()
+	if err != nil {
+		return nil, err
+	}
+	if respStart, ok := tok.(xml.StartElement); ok {
+		_, err = stanza.UnmarshalIQError(resp, respStart)
+		if err != nil {
+			return nil, err
+		}
+	}
+
 	conn, err := newConn(h, s, iq, false, MaxBufferSize), nil
 	if err != nil {
 		return nil, err
